@@ -2073,6 +2073,9 @@ pub struct SstMultiBuilder {
     options: SstOptions,
     builder: Option<SstBuilder>,
     paths: Vec<PathBuf>,
+    // The last entry accepted by any of the builders; the sort order spans the files.
+    last_key: Vec<u8>,
+    last_timestamp: u64,
 }
 
 impl SstMultiBuilder {
@@ -2085,7 +2088,33 @@ impl SstMultiBuilder {
             options,
             builder: None,
             paths: Vec::new(),
+            last_key: Vec::new(),
+            last_timestamp: u64::MAX,
         }
+    }
+
+    // Reject what no builder would take before a new file gets opened for it:  The first entry of
+    // a file must still sort after the last entry of the previous file.
+    fn validate(&self, key: &[u8], timestamp: u64) -> Result<(), SError> {
+        check_key_len(key)?;
+        if KeyRef::new(&self.last_key, self.last_timestamp).cmp(&KeyRef::new(key, timestamp))
+            != Ordering::Less
+        {
+            SORT_ORDER.click();
+            return Err(sort_order(
+                self.last_key.clone(),
+                self.last_timestamp,
+                key.to_vec(),
+                timestamp,
+            ));
+        }
+        Ok(())
+    }
+
+    fn assign_last_key(&mut self, key: &[u8], timestamp: u64) {
+        self.last_key.clear();
+        self.last_key.extend_from_slice(key);
+        self.last_timestamp = timestamp;
     }
 
     /// Provide a hint that this would be a good spot to split to create a new sst.
@@ -2131,11 +2160,18 @@ impl Builder for SstMultiBuilder {
     }
 
     fn put(&mut self, key: &[u8], timestamp: u64, value: &[u8]) -> Result<(), SError> {
-        self.get_builder()?.put(key, timestamp, value)
+        self.validate(key, timestamp)?;
+        check_value_len(value)?;
+        self.get_builder()?.put(key, timestamp, value)?;
+        self.assign_last_key(key, timestamp);
+        Ok(())
     }
 
     fn del(&mut self, key: &[u8], timestamp: u64) -> Result<(), SError> {
-        self.get_builder()?.del(key, timestamp)
+        self.validate(key, timestamp)?;
+        self.get_builder()?.del(key, timestamp)?;
+        self.assign_last_key(key, timestamp);
+        Ok(())
     }
 
     fn seal(mut self) -> Result<Vec<PathBuf>, SError> {
